@@ -2145,3 +2145,97 @@ def handle_message_unit():
 
 
 ALL.append(handle_message_unit)
+
+
+# ----------------------------------------------------------------------------- QueueProcessor.process_one / process_and_ack (C01/P, C08)
+QP = "stabilize.queue.processor.processor:QueueProcessor"
+
+
+def _qp_registry():
+    from pyvc.values import SModel, fresh_bool
+
+    reg = run_task_registry()
+
+    def handle_message(I, a, k):
+        I.st.emit("handle_message", message=a[1])
+        if I.st.choose("handling_raises"):
+            from .assumed_runtask import new_exception
+
+            raise PyRaise_(new_exception(I, "handling_error"))
+        return SNone
+
+    reg.contracts["*._handle_message"] = handle_message
+    reg.contracts["*._start_lock_heartbeat"] = lambda I, a, k: SNone
+
+    def poll_one(I, a, k):
+        m = T.new_symbolic(I, "Message", "polled")
+        I.st.emit("queue_op", op="poll_one", args=[], in_txn=None)
+        return SOpt(m, fresh_bool("queue_empty"))
+
+    reg.methods[("Queue", "poll_one")] = poll_one
+    return reg
+
+
+def _make_qp(ctx):
+    from pyvc.values import SModel
+
+    I = ctx.I
+    ci = I.index.find_class("QueueProcessor")
+    oid = I.st.new_id()
+    rec = ObjRec(ci.name, ci, {}, {"name": "processor", "symbolic": True})
+    I.st.objs[oid] = rec
+    rec.fields["queue"] = T.StoreModel.make_queue(I)
+    rec.fields["config"] = T.new_symbolic(I, "QueueProcessorConfig", "config")
+    rec.fields["_in_flight_lock"] = SOpaque_("lock")
+    rec.fields["_lock"] = SOpaque_("lock")
+    rec.fields["_in_flight"] = I.ops.new_conc_list([], as_set=True)
+    rec.fields["_active_count"] = SInt_(z3.Int("active_count"))
+    ex = T.new_model_obj(I, "Executor", "executor")
+    I.st.objs[ex.oid].fields["submit"] = SModel(lambda I2, a2, k2: I2.call(a2[0], list(a2[1:]), {}), None, "submit")  # runs the callable once
+    rec.fields["_executor"] = ex
+    return SObj(oid)
+
+
+def SOpaque_(tag):
+    from pyvc.values import SOpaque
+
+    return SOpaque(tag)
+
+
+def _ack_after_handler(ctx):
+    """C01/P: the message is acknowledged only on the path where _handle_message returned normally, and after it; when
+    handling raises the message is rescheduled and never acknowledged."""
+    effs = ctx.st.effects
+    hm = [i for i, e in enumerate(effs) if e.kind == "handle_message"]
+    acks = [i for i, e in enumerate(effs) if e.kind == "queue_op" and e.data["op"] == "ack"]
+    resch = [i for i, e in enumerate(effs) if e.kind == "queue_op" and e.data["op"] == "reschedule"]
+    raised = any(e.kind == "handle_message" for e in effs) and bool(resch)
+    goals = [("ack-only-after-handling", z3.BoolVal(all(hm and a > hm[0] for a in acks))),
+             ("never-both", z3.BoolVal(not (acks and resch))),
+             ("at-most-one-ack", z3.BoolVal(len(acks) <= 1))]
+    if hm:
+        goals.append(("acked-or-rescheduled", z3.BoolVal(bool(acks) or bool(resch))))
+    return goals
+
+
+def process_one_unit():
+    from pyvc.verify import Unit
+    from .common import STATUS_NAMES
+
+    return Unit(prop="*", name="L2/QueueProcessor.process_one", func=QP + ".process_one", params=[], self_type=_make_qp,
+                names=STATUS_NAMES, registry=_qp_registry(), replayable=False,
+                obligations=[Obl("C01/P/ack-after-handler/process_one", _ack_after_handler, when="any"),
+                             Obl("C08/processor/ack-after-handler/process_one", _ack_after_handler, when="any")])
+
+
+def process_and_ack_unit():
+    from pyvc.verify import Unit
+    from .common import STATUS_NAMES
+
+    return Unit(prop="*", name="L2/QueueProcessor.process_and_ack", func=QP + "._submit_message_internal",
+                params=[("message", ("obj", "Message"))], self_type=_make_qp, names=STATUS_NAMES, registry=_qp_registry(), replayable=False,
+                obligations=[Obl("C01/P/ack-after-handler/process_and_ack", _ack_after_handler, when="any"),
+                             Obl("C08/processor/ack-after-handler/process_and_ack", _ack_after_handler, when="any")])
+
+
+ALL += [process_one_unit, process_and_ack_unit]
